@@ -154,6 +154,9 @@ def run(spec, out):
            "json", "pickle", "cli", "level", "quantify", "qpretty", "add"]
     if spec.get("define_dimension"):
         ops += ["define_dimension"]
+    foreign = list(spec.get("foreign_pickles", []))
+    if foreign:
+        ops += ["unpickle_foreign", "unpickle_foreign"]
 
     from measured.json import MeasuredJSONDecoder, MeasuredJSONEncoder
 
@@ -225,6 +228,26 @@ def run(spec, out):
             u = value(t)
             u.quantify()
             (7 * u).unprefixed()
+        elif op == "unpickle_foreign":
+            # a compound unit pickled in ANOTHER process and never built here: it enters the intern table
+            # through __new__ + restored slot state, without __init__
+            import base64
+            import pickle
+            if not foreign:
+                return
+            term, blob = foreign.pop()
+            before = len(Unit._known)
+            u = pickle.loads(base64.b64decode(blob))
+            count("foreign_pickles_loaded")
+            if len(Unit._known) > before:
+                count("registrations/unpickled-from-another-process")
+            want = mdl.dim_of_nf(mdl.eval_model(term))
+            if tuple(u.dimension.exponents) != tuple(want):
+                violation("C01:unpickled-unit-has-wrong-dimension", f"unit unpickled from another process {u!r}: model dimension {want}", {"term": term})
+            again = mdl.eval_real(term)
+            if again is not u:
+                violation("C01:unpickled-unit-is-not-the-singleton", f"{M.show(term)} evaluated after unpickling is another object than the unpickled one", {"term": term})
+            used_terms.append(term)
         elif op == "define_dimension":
             k = counts.get("dimensions_defined", 0)
             d = Dimension.define(f"zqc01dim{k}", f"Zq{k}")
